@@ -214,6 +214,13 @@ def run_case(spec, sub=None):
                 viol.append(
                     f"ContractionTreeCompressed built from ssa path {norm(my_ssa)} replays as {norm(sp)} by default"
                 )
+            ok, cp_ = guarded(lambda: tc.copy().get_ssa_path())
+            if not ok:
+                viol.append(f"ContractionTreeCompressed.copy().get_ssa_path raised {cp_}")
+            elif norm(cp_) != norm(my_ssa):
+                viol.append(
+                    f"a copy of the compressed tree built from {norm(my_ssa)} replays as {norm(cp_)}"
+                )
             ok, lp = guarded(tc.get_path)
             if ok:
                 msg = ref.check_path_valid([tuple(x) for x in lp], n)
